@@ -180,7 +180,7 @@ def small_masks():
 def chk_coords(case, acc, seed):
     import lentil
     shape, name, pos, val = tuple(case['shape']), case['mask'], tuple(case['pos']), case['val']
-    sm = small_masks()[name]
+    sm = np.ones(shape) if name == 'full' else small_masks()[name]      # 'full': every sample lit (no zero anywhere)
     mask = np.zeros(shape)
     mask[pos[0]:pos[0] + sm.shape[0], pos[1]:pos[1] + sm.shape[1]] = sm * val
     pts = np.argwhere(mask != 0)
@@ -219,6 +219,33 @@ def chk_coords(case, acc, seed):
             acc.violation('coords:nonzero-outside-mask', dict(case, j=j), 'mode is non-zero outside the mask')
         if rm.maxerr(z, zb) > 1e-12:
             acc.violation('coords:depends-on-mask-values', dict(case, j=j), 'mode depends on the mask values, not only on its support')
+    # the same through the basis / composition helpers, for every mask value
+    try:
+        Bv = np.asarray(lentil.zernike_basis(mask, [4, 2, 7]), dtype=float)
+        Br = np.asarray(lentil.zernike_basis(ref_mask, [4, 2, 7]), dtype=float)
+        if rm.maxerr(Bv, Br) > 1e-12:
+            acc.violation('basis:depends-on-mask-values', case, f'zernike_basis depends on the mask values, not only on its support (max diff {rm.maxerr(Bv, Br):.3e})')
+        cv = np.asarray(lentil.zernike_compose(mask, [0.0, 0.5, -0.25, 0.125]), dtype=float)
+        cr_ = np.asarray(lentil.zernike_compose(ref_mask, [0.0, 0.5, -0.25, 0.125]), dtype=float)
+        if rm.maxerr(cv, cr_) > 1e-12:
+            acc.violation('compose:depends-on-mask-values', case, 'zernike_compose depends on the mask values, not only on its support')
+    except Exception as e:
+        acc.violation(f'basis:raises:{type(e).__name__}', case, repr(e))
+    if val == 1 and len(pts) >= 3:
+        # caller-supplied coordinate arrays are inputs: reused across calls with different masks they stay what they were
+        rho_s, th_s = lentil.zernike_coordinates(mask, shift=(0.25, -0.5), rotate=15)
+        rho_s, th_s = np.array(rho_s, dtype=float), np.array(th_s, dtype=float)
+        keep = (rho_s.copy(), th_s.copy())
+        want = np.asarray(lentil.zernike(mask, 7, rho=rho_s.copy(), theta=th_s.copy()), dtype=float)
+        sub = mask.copy(); sub[tuple(pts[0])] = 0; sub[tuple(pts[-1])] = 0
+        lentil.zernike(sub, 7, rho=rho_s, theta=th_s)
+        lentil.zernike_basis(sub, [2, 3], rho=rho_s, theta=th_s)
+        if not (np.array_equal(rho_s, keep[0]) and np.array_equal(th_s, keep[1])):
+            acc.violation('coords:supplied-arrays-modified', case, 'zernike()/zernike_basis() wrote into the caller-supplied rho/theta arrays')
+        got = np.asarray(lentil.zernike(mask, 7, rho=rho_s, theta=th_s), dtype=float)
+        if rm.maxerr(got, want) > 1e-12:
+            acc.violation('coords:supplied-arrays-history', case, 'the value at caller-supplied coordinates changed after the same arrays were used with a smaller mask')
+        acc.cls('supplied-reuse')
     if val == 1:
         modes = [4, 2, 7, 1, 11]
         for normalize in (True, False):
@@ -269,6 +296,10 @@ def t_values(arg, acc):
 
 def t_coords(arg, acc):
     shape = tuple(arg['shape'])
+    for val in (1, 0.3, 5, 1e-17, -2.0, True):
+        chk_coords({'kind': 'coords', 'shape': shape, 'mask': 'full', 'pos': (0, 0), 'val': val}, acc, arg['seed'])
+    chk_coords({'kind': 'coords', 'shape': shape, 'mask': 'full', 'pos': (0, 0), 'val': 1, 'after_other': True}, acc, arg['seed'])
+    acc.cls('full-mask')
     for name, sm in small_masks().items():
         for r0 in range(0, shape[0] - sm.shape[0] + 1):
             for c0 in range(0, shape[1] - sm.shape[1] + 1):
@@ -306,7 +337,7 @@ def run(tier, seed, acc, procs=None):
         'bounds': {'index_jmax': jidx, 'value_jmax': jval, 'array_shapes': shapes, 'masks': list(small_masks())},
         'assumptions': ['value tolerance = 1e-10 + 256 eps * sum|c_k| rho^k (rounding bound of the factorial sum)',
                         'sign of the sine modes: either sign accepted per mode; zero direction of theta not judged'],
-        'require': {'values': 60, 'rows=odd,cols=odd': 50, 'rows=even,cols=even': 50, 'rows=even,cols=odd': 50},
+        'require': {'values': 60, 'full-mask': 4, 'supplied-reuse': 100, 'rows=odd,cols=odd': 50, 'rows=even,cols=even': 50, 'rows=even,cols=odd': 50},
     }
 
 
